@@ -586,6 +586,65 @@ pub fn run(ctx: &Ctx) -> PropResult {
         };
         judge_dt_setter(rec, i, off, f, setter_value(rng, f), at_end);
     }));
+    // result-directed: the *result* of the call is drawn next to a range end (two days either side, so just inside and
+    // just outside), the receiver is that local reading with the one field replaced by some other valid value, the
+    // argument is the field's value in the result.  Receivers are then anywhere (any year for set_year, any month for
+    // set_month …) — only the result is extreme; a setter that checks representability on the wrong side of its
+    // arithmetic, or reports the refusal with a range that contains the argument, shows here.
+    wls.push(Workload::cases("setters_whose_result_lies_at_a_range_end", ctx.count(120_000, 3_000_000), |rec, idx, rng| {
+        let f = if idx % 3 == 0 { (idx / 3 % 10) as usize } else { (idx % 4) as usize };
+        let upper = rng.chance(1, 2);
+        let off = if rng.chance(1, 4) { *rng.pick(&[0i32, 1, -1, 59, -59, 3_600, -3_600, 43_200, -43_200, 86_399, -86_399]) } else { rng.range_i64(-86_399, 86_399) as i32 };
+        let jitter = match rng.below(3) { 0 => rng.range_i128(-2 * D, 2 * D), 1 => rng.range_i128(-(off.unsigned_abs() as i128 + 2) * NS, (off.unsigned_abs() as i128 + 2) * NS), _ => rng.range_i128(-3_600 * NS, 3_600 * NS) };
+        let r = if upper { MAX_INSTANT + jitter } else { MIN_INSTANT + jitter };
+        let lt = r + off as i128 * NS;
+        let fl = fields(lt);
+        let a = cal::astro_year(fl.year);
+        let v: i64 = match f {
+            0 => fl.year,
+            1 => fl.month as i64,
+            2 => fl.dom as i64,
+            3 => fl.day - cal::days_from_civil(a, 1, 1) + 1,
+            4 => fl.hour as i64,
+            5 => fl.minute as i64,
+            6 => fl.second as i64,
+            7 => (fl.subsec / 1_000_000) as i64,
+            8 => (fl.subsec / 1_000) as i64,
+            _ => fl.subsec as i64,
+        };
+        for _ in 0..8 {
+            let v0: i64 = match f {
+                0 => match rng.below(3) { 0 => rng.range_i64(-5_879_610, 5_879_610), 1 => fl.year - fl.year.signum() * rng.range_i64(1, 3), _ => rng.range_i64(1, 9_999) },
+                1 => rng.range_i64(1, 12),
+                2 => rng.range_i64(1, 28),
+                3 => rng.range_i64(1, 365),
+                4 => rng.range_i64(0, 23),
+                5 | 6 => rng.range_i64(0, 59),
+                7 => rng.range_i64(0, 999),
+                8 => rng.range_i64(0, 999_999),
+                _ => rng.range_i64(0, 999_999_999),
+            };
+            if v0 == v {
+                continue;
+            }
+            if let Ok(l0) = model_set(lt, f, v0) {
+                let i0 = l0 - off as i128 * NS;
+                if representable(l0) && representable(i0) {
+                    rec.bin(if representable(r) && representable(lt) { "result-directed/result-just-inside" } else { "result-directed/result-just-outside" });
+                    judge_dt_setter(rec, i0, off, f, v, true);
+                    // and the Date setter for the same local date
+                    if f < 4 && off == 0 || rng.chance(1, 4) && f < 4 {
+                        let d0 = l0.div_euclid(D) as i64;
+                        if (cal::MIN_DAY..=cal::MAX_DAY).contains(&d0) {
+                            judge_date_setter(rec, d0, f, v);
+                        }
+                    }
+                    return;
+                }
+            }
+        }
+        rec.bin("result-directed/no-receiver-found");
+    }));
     wls.push(Workload::cases("date_and_time_setters", ctx.count(100_000, 3_000_000), |rec, idx, rng| {
         if idx % 2 == 0 {
             let day = match rng.below(4) {
@@ -607,10 +666,10 @@ pub fn run(ctx: &Ctx) -> PropResult {
     wls.push(Workload::cases("setters_on_results_of_earlier_operations(api_walks)", ctx.count(40_000, 1_500_000), |rec, _, rng| super::walk::walk(rec, rng, "C15", super::walk::Family::SetClear)));
     let out = run_workloads(ctx, wls);
     let mut meta = PropMeta::default();
-    meta.rule = "boundary-dense argument tuples: every parameter from {0, 1, max−1, max, max+1, 2^31−1, 2^31, 2^32−1(−1), values whose product with the unit would wrap u32, random, and for from_nanos k·2^32 whole seconds/milliseconds/microseconds/minutes + an in-day remainder}; cartesian grids for from_ymd (23 years x 16 months x 20 days, Date and DateTime), from_hms (Time, DateTime, Offset) and the scalar constructors; pairwise-style random tuples for from_ymdhms; all set_* of DateTime (incl. values at the very ends of the range carrying an offset), Date and Time. Oracle: documented ranges + calendar existence + representability ⇒ Ok with exactly the modelled value; otherwise Err(OutOfRange) — never a panic — and when the message has the shape \"<name> must be in the range a..=b\" the range must exclude the offending component and contain every value of that component the model would accept given the other arguments. Every case non-trivial; distinct by input hash. API walks: setters applied to receivers that are themselves results of earlier operations (clamped month/year shifts, arithmetic, offset changes), accept/refuse judged against the model. The message is read through Display, String::from(&e) and String::from(e) and must be the same text. Notable dates (the 27 leap-second days, the 1582 and 1752 reform gaps, well-known epochs and roll-overs) x hours 0/23/24 x minutes 0/59/60 x seconds 0/58/59/60/61. Date API walks.".into();
+    meta.rule = "boundary-dense argument tuples: every parameter from {0, 1, max−1, max, max+1, 2^31−1, 2^31, 2^32−1(−1), values whose product with the unit would wrap u32, random, and for from_nanos k·2^32 whole seconds/milliseconds/microseconds/minutes + an in-day remainder}; cartesian grids for from_ymd (23 years x 16 months x 20 days, Date and DateTime), from_hms (Time, DateTime, Offset) and the scalar constructors; pairwise-style random tuples for from_ymdhms; all set_* of DateTime (incl. values at the very ends of the range carrying an offset), Date and Time. Oracle: documented ranges + calendar existence + representability ⇒ Ok with exactly the modelled value; otherwise Err(OutOfRange) — never a panic — and when the message has the shape \"<name> must be in the range a..=b\" the range must exclude the offending component and contain every value of that component the model would accept given the other arguments. Every case non-trivial; distinct by input hash. API walks: setters applied to receivers that are themselves results of earlier operations (clamped month/year shifts, arithmetic, offset changes), accept/refuse judged against the model. The message is read through Display, String::from(&e) and String::from(e) and must be the same text. Notable dates (the 27 leap-second days, the 1582 and 1752 reform gaps, well-known epochs and roll-overs) x hours 0/23/24 x minutes 0/59/60 x seconds 0/58/59/60/61. Date API walks. Result-directed setter cases: the result is drawn within two days (or within one offset) of a range end, inside or outside, the receiver is that reading with the one field replaced (any year for set_year, any month for set_month …), the argument is the result's field value; all ten DateTime setters under any offset, the four Date setters.".into();
     meta.required_bins = vec![
         "ctor/notable-dates",
-        "date-walk/with-judged-steps","ctor/valid", "ctor/invalid", "setter/valid", "setter/invalid", "setter/result-not-representable", "setter/at-range-end-with-offset"];
+        "date-walk/with-judged-steps","ctor/valid", "ctor/invalid", "setter/valid", "setter/invalid", "setter/result-not-representable", "setter/at-range-end-with-offset", "result-directed/result-just-inside", "result-directed/result-just-outside"];
     meta.assumptions = vec!["which parameter an error names when several are invalid, and the wording, are not judged".into()];
     let _ = (TimeUtilities::hour(&Time::default()), OffsetUtilities::get_offset(&Time::default()));
     Ok((meta, out))
